@@ -55,17 +55,21 @@ def rand_cfg(r, pat=None):
 SIZES = [1, 1, 1, 2, 2, 3, 4, 4, 5, 8, 8, 15, 16, 17, 31, 32, 33, 63, 64, 65, 100, 128, 129, 500]
 
 
+MODE = [""]      # per-history emphasis chosen by gen_history: "" | "aligned" | "solid"
+
+
 def rand_flags(r, filled):
     f = 0
-    if r.random() < 0.5:
+    mode = MODE[0]
+    if r.random() < (0.15 if mode == "solid" else 0.5):
         f |= NO_OVER
     if r.random() < (0.6 if filled else 0.15):
         f |= NO_EXTEND
-    if r.random() < 0.15:
+    if r.random() < (0.5 if mode == "aligned" else 0.15):
         f |= ALIGNED
-    if r.random() < 0.3:
+    if r.random() < (0.05 if mode == "solid" else 0.3):
         f |= NO_STATS
-    if r.random() < 0.2:
+    if r.random() < (0.6 if mode == "solid" else 0.2):
         f |= SOLID
     if r.random() < 0.05:
         f |= SYNC_BMAP
@@ -88,10 +92,45 @@ def rand_hint(r, cfg):
     return str(r.randrange(0, 40000 * cfg.bsz))
 
 
+def gen_aligned_frag(r, cfg, reopen=False):
+    """page-aligned requests against fragmented space: the file is filled with regions of 0.6-1.9 pages, every second one
+    is released (holes start off page boundaries), then one-page PAGE_ALIGNED requests run through best fit, the
+    'length + one page' retry and the full scan of _fsm_blk_allocate_aligned_lw; `check` compares index and bitmap"""
+    ops = [cfg.line(), "check"]
+    ppb = max(1, PAGE // cfg.bsz)
+    n = 0
+    fl = NO_EXTEND | NO_OVER | NO_STATS
+    for _ in range(r.randrange(40, 90)):
+        blks = r.randrange(max(1, ppb * 6 // 10), max(2, 2 * ppb))      # every hole is shorter than request + one page
+        ops.append("alloc %d 0 %d" % (blks * cfg.bsz, fl))
+        n += 1
+    # eat what is left so that no big tail block exists
+    for pw in range(15, -1, -1):
+        ops.append("alloc %d 0 %d" % ((1 << pw) * cfg.bsz, fl))
+        n += 1
+    for i in range(0, n - 16, 2):
+        if r.random() < 0.85:
+            ops.append("dealloc #%d" % i)
+    ops.append("check")
+    for _ in range(r.randrange(4, 14)):
+        f2 = ALIGNED | r.choice([NO_EXTEND, NO_EXTEND, 0]) | r.choice([0, NO_STATS]) | r.choice([0, NO_OVER])
+        ops.append("alloc %d %s %d" % (max(1, r.choice([ppb, ppb, ppb - 1, ppb // 2 + 1, ppb + 3])) * cfg.bsz, rand_hint(r, cfg), f2))
+        ops.append("check")
+        if r.random() < 0.3:
+            ops.append("alloc %d 0 %d" % (r.choice(SIZES) * cfg.bsz, NO_EXTEND | NO_OVER))
+    if reopen and r.random() < 0.5:
+        ops += ["check", "reopen", "check"]
+    ops.append("check")
+    return ops
+
+
 def gen_history(r, cfg, nops, reopen=False, freeall=None):
     """mostly valid allocate/reallocate/deallocate mix; `reopen` adds sync/reopen/clear"""
+    if freeall is None and r.random() < 0.12:
+        return gen_aligned_frag(r, cfg, reopen)
     ops = [cfg.line(), "check"]
-    filled = r.random() < 0.6
+    MODE[0] = r.choice(["", "", "aligned", "solid"])
+    filled = r.random() < (0.85 if MODE[0] == "aligned" else 0.6)
     nalloc = 0
     if filled:
         # consume the free tail with NO_EXTEND allocations of decreasing powers of two
